@@ -7,7 +7,7 @@ open Echse.Rrule Echse.Strpf Echse.Instant
 
 theorem body_roundtrip (r : Rule) (ccnt : Nat)
     (hfreq : 1 ≤ r.freq ∧ r.freq ≤ 7)
-    (hscale : r.scale = 0 ∨ (5 ≤ r.scale ∧ r.scale ≤ 10))
+    (hscale : r.scale = 0 ∨ (1 ≤ r.scale ∧ r.scale ≤ 10))
     (hinter : 1 ≤ r.inter ∧ r.inter < 2^31)
     (hcount : r.count = -1 ∨ (1 ≤ r.count ∧ r.count + ccnt < 2^31))
     (huntil : r.untl = Inst.unpack (2^64 - 1) ∨ UntilOk r.untl)
